@@ -127,6 +127,7 @@ def run_shard(desc, seed, tier, col):
         nontriv = ir.depth(T) >= 1 or ir.has_tags(T) or tuple(mode) != (True, 0)
         col.case({'T': T, 'v': v, 'm': list(mode)}, nontriv, features(T, v, mode),
                  sample={'type': ir.show_type(T), 'value': absval.short(v, 200), 'defMode': mode[0], 'maxChunkSize': mode[1]})
+        col.begin(case)
         for f in run_case(case):
             col.fail(f['sub'], f['kind'], f['msg'], case, sig=f['sig'], obs=f.get('obs'))
 
